@@ -1,3 +1,4 @@
+import Firebolt.TransExpected
 import Firebolt.Properties.TransBase
 import Firebolt.Properties.C01
 import Firebolt.Properties.ExecFlow
@@ -96,24 +97,19 @@ open Firebolt.MiniGo Firebolt.TransBase
 /-- a failed event reaches handleFailure and nothing else: no child delivery, no success or filter count -/
 theorem translated_failure_only_to_handler (σ : Env) (h : σ "err" ≠ 0) :
     obs Trans.handleResult σ = ⟨[("nc.handleFailure", [σ "event", σ "err"])], none, false⟩ := by
-  rw [C01.translated_handleResult]; simp [h]
+  rw [C01.translated_handleResult]; simp [TransExpected.handleResult, h]
 
 /-- and handleFailure is reached by nothing but a failure -/
 theorem translated_handler_only_for_failures (σ : Env) (h : σ "err" = 0) :
     ∀ a, ("nc.handleFailure", a) ∉ (obs Trans.handleResult σ).calls := by
-  rw [C01.translated_handleResult]; by_cases h2 : σ "len(result)" = 0 <;> simp [h, h2]
+  rw [C01.translated_handleResult]; by_cases h2 : σ "len(result)" = 0 <;> simp [TransExpected.handleResult, h, h2]
 
 /-- handleFailure: the failure is counted once; with an error handler configured, the report is built from the very event
 and error handed in and delivered to that handler through deliverToChild (so its discard_on_full_buffer setting applies - F4);
 without one nothing else happens -/
 theorem translated_handleFailure (σ : Env) :
-    obs Trans.handleFailure σ =
-      ⟨("metrics.Node().Failures.WithLabelValues(nc.Config.ID).Inc", []) ::
-        (if σ "nc.ErrorHandler" ≠ 0 then
-          [("new firebolt.EventError {Event,Err}", [σ "event", σ "err"]),
-           ("nc.deliverToChild", [σ "nc.ErrorHandler", σ "[]firebolt.Event{{ Payload: eventError, Created: time.Now(), }}"])]
-         else []), none, false⟩ := by
-  by_cases h : σ "nc.ErrorHandler" = 0 <;> minigo_simp [Trans.handleFailure, h]
+    obs Trans.handleFailure σ = TransExpected.handleFailure σ := by
+  by_cases h : σ "nc.ErrorHandler" = 0 <;> minigo_simp [TransExpected.handleFailure, Trans.handleFailure, h]
 
 end Translated
 
